@@ -55,17 +55,19 @@ def global_draws(ctx, f):
 
 
 def reachable_from(ctx, roots, depth=8):
+    # breadth first: every function is reached at its smallest depth, so the result does not depend on the order in
+    # which roots and callees are visited
+    from collections import deque
     seen = {}
-    todo = [(r, 0, None) for r in roots]
+    todo = deque((r, 0, None) for r in sorted(roots, key=lambda f: f.qualname))
     while todo:
-        f, d, par = todo.pop()
+        f, d, par = todo.popleft()
         if f in seen or d > depth:
             continue
         seen[f] = par
         for c, tg in ctx.R.calls(f):
-            for t, h in tg:
-                if isinstance(t, FuncInfo) and h == "type":
-                    todo.append((t, d + 1, f))
+            for t, h in sorted(((t, h) for t, h in tg if isinstance(t, FuncInfo) and h == "type"), key=lambda x: x[0].qualname):
+                todo.append((t, d + 1, f))
     return seen
 
 
